@@ -871,16 +871,18 @@ Definition api_zread {A} (k : bytes) (dflt : A) (f : zsetv -> option A) (now : Z
       | Some z => match f z with Some a => Ok a d1 | None => Panic d1 end
       end
   end.
-Definition api_zincrby (k m : bytes) (s : score) (now : Z) (d : db) : res score :=
+(* None = the sum is NaN: nothing stored, signalled or notified *)
+Definition api_zincrby (k m : bytes) (s : score) (now : Z) (d : db) : res (option score) :=
   match write_key k new_zset now d with
   | (None, _) => Unm
   | (Some mt, d1) =>
       match as_zset mt d1 with
       | None => Panic d1
       | Some z =>
+          if zset_zincrby_nan m s z then Ok None d1 else
           match zset_zincrby m s z with
           | None => Unm
-          | Some (r, z') => Ok r (notify (PZIncrBy k m s) (signal k mt (set_val_of mt (VZSet z') d1)))
+          | Some (r, z') => Ok (Some r) (notify (PZIncrBy k m s) (signal k mt (set_val_of mt (VZSet z') d1)))
           end
       end
   end.
